@@ -321,8 +321,15 @@ def _matrix_binary_op(
                 left_shape=(rows, cols),
                 right_shape=right.shape,
             )
+        # elements that already are expressions (variables, parameters) are used as they are
         right_exprs = [
-            [Constant(right[i, j]) for j in range(cols)] for i in range(rows)
+            [
+                right[i, j]
+                if isinstance(right[i, j], Expression)
+                else Constant(right[i, j])
+                for j in range(cols)
+            ]
+            for i in range(rows)
         ]
 
     elif isinstance(right, (list, tuple)):
